@@ -427,11 +427,14 @@ theorem newWin_ok {st : St} (inv : SInv gh st) {p : Nat} {pw : Win} (hp : LiveW 
         rw [Array.getElem?_push]
         simp [hwx]
       rw [e]
-      refine ⟨?_, fun h0 => ?_⟩
+      refine ⟨?_, fun hcov => ?_⟩
       · show (1 : Int) ≤ ((1 : Nat) : Int) + (gh.win st.tree.wins.size : Int)
         omega
-      · have := hql.lt
-        omega
+      · rcases hcov with h0 | hg
+        · have := hql.lt
+          omega
+        · show ((1 : Nat) : Int) + (gh.win st.tree.wins.size : Int) ≤ 1
+          rw [hg]; decide
     · obtain ⟨x, hx, hf, hr⟩ := oldw i x' hl'.1 hi
       have hilt : i < st.tree.wins.size := by
         by_cases hilt : i < st.tree.wins.size
@@ -608,11 +611,11 @@ theorem refW_ok {st : St} (inv : SInv gh st) {win : Nat} {ww : Win} (hw : LiveW 
       have := LiveW.unique hl' hl0; subst this
       have := inv.wref win ww hw
       simp only [hlt, and_self, if_true]
-      refine ⟨?_, fun h0 => ?_⟩
+      refine ⟨?_, fun hcov => ?_⟩
       · show ww.refcount + 1 ≤ (((getX st win).appRefs + 1 : Nat) : Int) + (gh.win win : Int)
         omega
       · show (((getX st win).appRefs + 1 : Nat) : Int) + (gh.win win : Int) ≤ ww.refcount + 1
-        have := this.2 h0
+        have := this.2 hcov
         omega
     · simp only [hi, false_and, if_false]
       exact inv.wref i w' ⟨by rw [← set_get_ne _ hi]; exact hl'.1, hl'.2⟩
